@@ -101,6 +101,8 @@ def field_value(rng, version, row, ec, toks=None, max_reps=3, allow_escapes=True
     Returns text (never empty, no trailing empties)."""
     def leaf(dt):
         if toks is not None:
+            if dt in TYPED and rng.random() < 0.15:
+                return rng.choice(TYPED[dt])      # boundary literals of typed leaves ('0', '2020', ...) among the tokens
             return toks.next()
         return leaf_text(rng, ec, dt, allow_escapes)
 
